@@ -27,7 +27,7 @@ PROP = "C20"
 LONG1 = "k" * 66 + "1"
 LONG2 = "k" * 66 + "2"
 # user keys a,b,c; names that coincide with automatic ones; names that a careless sanitiser / length cut-off would merge
-KEYS = ["a", "b", "c", "da_temp_1", "da_temp_2", "da_temp_3", "t 1", "t_1", LONG1, LONG2]
+KEYS = ["a", "b", "c", "da_temp_1", "da_temp_2", "da_temp_3", "t 1", "t_1", LONG1, LONG2, "a_tmp", "b_1", "da_temp_10"]
 REPLICAS = ["pd", "pl", "db"]
 SPACE_NAME = {"pd": "DataModelSpace[pandas]", "pl": "DataModelSpace[polars]", "db": "DBSpace[sqlite]"}
 
@@ -400,8 +400,9 @@ def generate(run_seed: int, cfg: Dict[str, Any]) -> Dict[str, Any]:
     n_ops = rk.randint(cfg.get("min_ops", 4), cfg.get("max_ops", 22))
     n_keys = rk.choice([2, 3, 4, 6])
     alphabet = sorted(rk.sample(KEYS[:3], min(3, max(1, n_keys - 1)))) + KEYS[3:3 + max(0, n_keys - 2)]
-    if rk.random() < 0.25:
-        alphabet = alphabet + rk.choice([["t 1", "t_1"], [LONG1, LONG2]])
+    if rk.random() < 0.4:
+        alphabet = alphabet + rk.choice([["t 1", "t_1"], [LONG1, LONG2], ["a", "a_tmp"], ["b", "b_1"], ["da_temp_1", "da_temp_10"]])
+        alphabet = [k for i, k in enumerate(alphabet) if k not in alphabet[:i]]
     auto_rate = rk.choice([0.1, 0.3, 0.5])
     w = rk.choice([(4, 4, 2, 1, 1, 1), (6, 2, 2, 1, 1, 1), (2, 6, 2, 1, 1, 1), (3, 3, 4, 2, 1, 1)])
     # generation-time belief about columns per key, assuming fault-free outcomes (may be wrong: that is fine)
